@@ -12,7 +12,10 @@ Oracles on the implementation (public `compile`, and `compile_lex` = the same pi
  (3) [PRINT](line) entries carry the line of their statement, also after notes / rests / lengths followed by blank lines; also
      from inside user functions (FUNCTION F(params) with the '{' on the same or a later line, after blanks and comments; bodies
      over several lines with nested IF / ELSE / FOR blocks; several functions, several calls) - with a correspondence against the
-     script model (driver `script`, kind compile_script) on those sources;
+     script model (driver `script`, kind compile_script) on those sources; and after statements whose EXPRESSIONS span lines
+     (INT definitions, assignments, PRINT, IF / WHILE / FOR conditions, function and command arguments written over several lines
+     with /* */ comments containing line breaks between operands and operators of different precedence): the log must be that of
+     the same source with those line breaks removed, every line number mapped to the statement's line in the multi-line text;
  (4) bounds: <= 100 entries, <= 30 + 1 unknown-character entries, log text <= 4096 + 3 characters - on every output; at the
      limit (k PRINT lines sized so that the joined log text has exactly 4095, 4096, 4097, ... 4096+99, ... characters) the log is
      the joined text when that has <= 4096 characters and its first 4096 characters + "..." otherwise;
@@ -519,6 +522,206 @@ def run_functions(ctx, n):
             ctx.dist["script_model_agrees"] = ctx.dist.get("script_model_agrees", 0) + 1
 
 
+NLP = "\ue002"      # placeholder of a line break inside a /* */ comment of an expression
+
+
+class ExprSrc:
+    """statements whose expressions span lines by means of /* */ comments containing line breaks, placed between operands and
+    operators of different precedence levels.  Every statement is one logical line; the multi-line source S and the flat source
+    S' (the same comments without their line breaks) have the same statements in the same order, so the expected log of S is the
+    log of S' with every line number mapped through (statement index in S') -> (line of that statement in S)."""
+    def __init__(self, rng, p_nl):
+        self.rng, self.p_nl, self.stmts, self.vars = rng, p_nl, [], []
+        self.with_cmds = rng.random() < 0.5      # TR / Tempo / @ ... arguments: outside the fragment of the script model
+
+    def gap(self):
+        r = self.rng.random()
+        if r < self.p_nl:
+            return self.rng.choice([" /*" + NLP + "*/ ", " /* note:" + NLP + "   six */ ", " /* a" + NLP + NLP + " b */ ", " /* x */ /*" + NLP + "*/ "])
+        return self.rng.choice([" ", " ", "  ", " /* k */ ", ""]) if r < 0.9 else " "
+
+    def atom(self, depth, small):
+        rng = self.rng
+        r = rng.random()
+        if depth > 0 and r < 0.2:
+            return "(" + self.gap() + self.level(depth - 1, rng.choice([2, 2, 3, 4]) if not small else 2, small) + self.gap() + ")"
+        if self.vars and not small and r < 0.55:
+            return rng.choice(self.vars)
+        return str(rng.randrange(1, 4 if small else 10))
+
+    def level(self, depth, lv, small=False):
+        """lv 1: * / %   2: + -   3: comparison   4: & |"""
+        rng = self.rng
+        if lv == 0:
+            return self.atom(depth, small)
+        n = rng.choice([1, 1, 2, 2, 3]) if lv in (1, 2) else (rng.choice([1, 2]) if lv == 3 else rng.choice([1, 1, 2]))
+        out = self.level(depth, lv - 1, small)
+        for _ in range(n - 1):
+            if lv == 1:
+                op = rng.choice(["*", "*", "/", "%"]) if not small else "*"
+                rhs = str(rng.randrange(1, 4 if small else 10)) if op != "*" else self.level(depth, 0, small)
+            elif lv == 2:
+                op, rhs = rng.choice(["+", "-"] if not small else ["+"]), self.level(depth, 1, small)
+            elif lv == 3:
+                op, rhs = rng.choice(["==", "!=", "<", ">", "<=", ">="]), self.level(depth, 2, small)
+            else:
+                op, rhs = rng.choice(["&", "|"]), self.level(depth, 3, small)
+            g1, g2 = self.gap(), self.gap()
+            if op == "/" or op == "*":
+                g1, g2 = " " + g1.strip(" ") + " " if g1.strip(" ") else " ", " " + g2.strip(" ") + " " if g2.strip(" ") else " "
+            out = out + g1 + op + g2 + rhs
+        return out
+
+    def expr(self, lv=None, small=False):
+        return self.level(self.rng.choice([0, 1, 1, 2]), lv or self.rng.choice([1, 2, 2, 2]), small)
+
+    def emit(self, text):
+        self.stmts.append(text)
+
+    def block(self, depth, in_func):
+        rng = self.rng
+        for _ in range(rng.randrange(1, 5)):
+            k = rng.random()
+            if k < 0.22:
+                self.emit(rng.choice(["PRINT(", "Print("]) + self.gap() + self.expr() + self.gap() + ")")
+            elif k < 0.36:
+                if len(self.vars) < 4 and rng.random() < 0.6:
+                    v = ["VA", "VB", "VC", "VD"][len(self.vars)]
+                    self.emit(rng.choice(["INT ", "Int "]) + v + rng.choice([" = ", "=", " =" + self.gap()]) + self.expr())
+                    self.vars.append(v)
+                elif self.vars:
+                    self.emit(rng.choice(self.vars) + rng.choice([" = ", "="]) + self.expr())
+                else:
+                    self.emit("c")
+            elif k < 0.46:
+                self.emit(";" + rng.choice([c for c in UNKNOWN_ASCII if c not in "~}"] + ["※"]) + ";" if rng.random() < 0.7 else ";" + rng.choice(WORDS) + ";")
+            elif k < 0.56 and self.with_cmds:
+                self.emit(rng.choice(["TR(%s)", "Tempo(100 + %s)", "@(%s)", "CH(%s)", "KeyShift(%s)", "M(60 + %s)"]) % (self.gap() + self.expr(2, True) + self.gap())
+                          + rng.choice([" c", " d e", ""]))
+            elif k < 0.64:
+                self.emit(rng.choice(["c", "d4 e", "r8 c", "l8 o5 c"]))
+            elif k < 0.70 and self.funcs:
+                self.emit(rng.choice(self.funcs) + "(" + self.gap() + self.expr() + self.gap() + ")")
+            elif depth > 0 and k < 0.80:
+                self.emit("IF(" + self.gap() + self.expr(rng.choice([3, 4, 4])) + self.gap() + "){")
+                self.block(depth - 1, in_func)
+                if rng.random() < 0.5:
+                    self.emit("}ELSE{")
+                    self.block(depth - 1, in_func)
+                self.emit("}")
+            elif depth > 0 and k < 0.90 and self.loopvars:
+                v = self.loopvars.pop()
+                self.emit("FOR(INT %s = %s;%s%s < %s; %s++){" % (v, self.expr(2, True), self.gap() or " ", v, self.expr(2, True), v))
+                self.block(depth - 1, in_func)
+                self.emit("}")
+            elif depth > 0 and self.loopvars:
+                v = self.loopvars.pop()
+                self.emit("INT %s = 0" % v)
+                self.emit("WHILE(" + self.gap() + v + " * 1" + self.gap() + "<" + self.gap() + self.expr(2, True) + "){")
+                self.block(depth - 1, in_func)
+                self.emit("%s = %s + 1" % (v, v))
+                self.emit("}")
+            else:
+                self.emit("PRINT(" + self.expr() + ")")
+
+    def build(self):
+        rng = self.rng
+        self.funcs, self.loopvars = [], ["I", "J", "K", "L", "W", "II", "JJ"]
+        if rng.random() < 0.5:
+            self.emit("FUNCTION FN(A){")
+            saved, self.vars = self.vars, ["A"]
+            self.block(1, True)
+            self.vars = saved
+            self.emit("}")
+            self.funcs.append("FN")
+        self.block(rng.choice([1, 2, 2]), False)
+        self.emit("PRINT(%d)" % rng.randrange(100, 1000))
+        self.emit(";" + rng.choice(["!", "※", "Foo", "%"]) + ";")
+        multi = "\n".join(self.stmts).replace(NLP, "\n") + rng.choice(["", "\n"])
+        flat = "\n".join(self.stmts).replace(NLP, " ")
+        line_of, ln = [], 0
+        for st in self.stmts:
+            line_of.append(ln)
+            ln += 1 + st.count(NLP)
+        return multi, flat, line_of
+
+
+ENTRY = re.compile(r'^\[(PRINT|ERROR)\]\((-?\d+)\) (.*)$', re.S)
+
+
+def norm_entries(log_text, line_map=None):
+    """entries as (kind, line, text); the `near "..."` tail of lexer errors is dropped (it shows the following source text)"""
+    out = []
+    for e in split_log(log_text):
+        m = ENTRY.match(e)
+        if not m:
+            out.append(("?", -1, e))
+            continue
+        line = int(m.group(2))
+        if line_map is not None:
+            line = line_map[line] if 0 <= line < len(line_map) else -1000 - line
+        text = m.group(3)
+        if m.group(1) == "ERROR" and ' near "' in text:
+            text = text[:text.index(' near "')]
+        out.append((m.group(1), line, text))
+    return out
+
+
+def run_expressions(ctx, n):
+    """(3c) line numbers after statements whose expressions span several lines"""
+    rng = ctx.rng
+    cases = []
+    for _ in range(n):
+        multi, flat, line_of = ExprSrc(rng, rng.choice([0.1, 0.2, 0.35])).build()
+        if multi != flat:
+            cases.append((multi, flat, line_of))
+    lines = []
+    for multi, flat, _ in cases:
+        for kind in ("compile", "lex"):
+            lines.append(case_line(kind, multi))
+            lines.append(case_line(kind, flat))
+    buf = []
+    got = ctx.impl(lines, stall=20, capture_stdout=buf)
+    silent(ctx, lines, buf, "multi-line expressions")
+    for j, (multi, flat, line_of) in enumerate(cases):
+        for d, kind in ((0, "compile"), (2, "lex")):
+            gm, gf = got[4 * j + d].split("\t"), got[4 * j + d + 1].split("\t")
+            check_bounds(ctx, multi, got[4 * j + d], kind)
+            if len(gm) < 2 or len(gf) < 2:
+                ctx.count("expressions:" + kind, None)
+                if gm[0] != gf[0]:
+                    ctx.oracle_fail("a comment with a line break inside an expression changes the outcome (%s)" % kind, lines[4 * j + d],
+                                    got[4 * j + d][:80], got[4 * j + d + 1][:80], input_text=multi)
+                continue
+            logf = vlib.dec_text(gf[1])
+            ef = norm_entries(logf, line_of)
+            if len(ef) >= 95 or len(logf) >= 4000 or any(k == "?" or (k == "ERROR" and not t.startswith(("Unknown Character", "Syntax Error"))) for k, _, t in ef):
+                ctx.dist["expressions_skipped"] = ctx.dist.get("expressions_skipped", 0) + 1
+                continue
+            ctx.count("expressions:" + kind, multi if d == 0 and len(ef) >= 3 else None)
+            if gm[0] != gf[0]:
+                ctx.oracle_fail("a comment with a line break inside an expression changes the MIDI bytes (%s)" % kind, lines[4 * j + d],
+                                gm[0][-160:], gf[0][-160:], input_text=multi)
+                continue
+            em = norm_entries(vlib.dec_text(gm[1]))
+            if em != ef:
+                show = lambda es: "\n".join("[%s](%d) %s" % e for e in es)[:700]
+                ctx.oracle_fail("line numbers after a statement whose expression spans several lines (%s): every [PRINT] / [ERROR] entry must "
+                                "carry the 0-based source line of its statement" % kind, lines[4 * j + d], show(em), show(ef), input_text=multi)
+        if len(ctx.samples) < 12 and multi.count("\n") > flat.count("\n") + 2:
+            ctx.sample({"source": multi[:400], "log": vlib.dec_text(got[4 * j].split("\t")[1])[:300] if "\t" in got[4 * j] else ""})
+    sub = [(c[0], got[4 * j + 2]) for j, c in enumerate(cases) if len(c[0]) < 600]
+    mod = ctx.model(["compile_script\t%s" % vlib.enc_text(s) for s, _ in sub], driver="script")
+    for (s, g), m in zip(sub, mod):
+        if m.startswith("UNSUPPORTED") or m.startswith("OUTOFFUEL"):
+            ctx.unsupported += 1
+            ctx.dist["script_unsupported_expr"] = ctx.dist.get("script_unsupported_expr", 0) + 1
+        elif m != g:
+            ctx.disagree("compile_script (script model) on a source with multi-line expressions: bytes and log", s, g[-400:], m[-400:])
+        else:
+            ctx.dist["script_model_agrees_expr"] = ctx.dist.get("script_model_agrees_expr", 0) + 1
+
+
 def run_corpus(ctx):
     p = os.path.join(vlib.VERIF, "corpus", "C19.jsonl")
     if not os.path.exists(p):
@@ -686,6 +889,7 @@ def run(ctx):
     run_fixed(ctx)
     run_boundary(ctx)
     run_functions(ctx, 250 if ctx.tier == "quick" else 8000)
+    run_expressions(ctx, 400 if ctx.tier == "quick" else 10000)
     run_generated(ctx, 700 if ctx.tier == "quick" else 15000)
 
 
